@@ -523,6 +523,9 @@ func TestVf_C13(t *testing.T) {
 	}
 	// sequential: the retry-loop predicate is process-wide
 	for i, cs := range cases {
+		if run.Enough() {
+			break
+		}
 		run.Case(cs)
 		if i < 3 {
 			run.Sample(cs)
